@@ -91,10 +91,9 @@ Theorem C17_digits_denote : forall b up n, 2 <= b <= 36 -> 0 <= n -> parse_digit
 Proof. intros; now apply parse_digits_digits. Qed.
 Print Assumptions C17_digits_denote.
 
-(* string.packsize(fmt) = #string.pack(fmt, ...) whenever both succeed (fixed-size formats);
-   modulo 2^64 because PackSize counts in a Go uint *)
+(* string.packsize(fmt) = #string.pack(fmt, ...) whenever both succeed (fixed-size formats) *)
 Theorem C17_packsize_agrees : forall fmt vs out packed n,
-  pack fmt vs = POk out packed -> packsize fmt = SOk n -> n = Model.len out mod W.
+  pack fmt vs = POk out packed -> packsize fmt = SOk n -> n = Model.len out.
 Proof. exact packsize_agrees. Qed.
 Print Assumptions C17_packsize_agrees.
 
@@ -107,7 +106,12 @@ Theorem C17_format_int_directives : forall c sp n,
 Proof. exact format_int_directives. Qed.
 Print Assumptions C17_format_int_directives.
 
-Theorem C17_format_c_directive : forall sp n,
-  prec sp = None -> zero sp = false -> go_fmt_c sp n = c_fmt_c sp n.
+Theorem C17_format_c_directive : forall sp n, go_fmt_c sp n = c_fmt_c sp n.
 Proof. exact format_c_directive. Qed.
 Print Assumptions C17_format_c_directive.
+
+(* %s with '-', width and precision: bytes, not runes *)
+Theorem C17_format_s_directive : forall sp s,
+  (match prec sp with Some p => 0 <= p | None => True end) -> go_fmt_s sp s = c_fmt_s sp s.
+Proof. exact format_s_directive. Qed.
+Print Assumptions C17_format_s_directive.
